@@ -142,6 +142,21 @@ Theorem C03b_hybrid_example_computed :
   Loaded [((1, 0)%N, VObj (OName (B "Catalog"))); ((2, 0)%N, VObj (OStream [(B "Length", OInt 3)] (B "abc")))] (1, 0)%N.
 Proof. exact ex_hybrid_computed. Qed.
 
+(* REPRESENTATION INDEPENDENCE: one document written with a classic table, with a cross-reference stream and as a hybrid
+   file — each in ANY legal layout, each build profile chosen freely — loads to the same root and the same bindings *)
+Theorem C03_bytes_representation_independent : forall rel1 rel2 rel3 d l X H,
+  wf_doc d -> wf_layout d l -> wf_xlayout d X -> wf_hylayout d H ->
+  exists c1 c2 c3,
+    load_bytes rel1 (render_classic (d_objs d) l) = Loaded c1 (d_root d) /\
+    load_bytes rel2 (render_xrefstm (d_objs d) X) = Loaded c2 (d_root d) /\
+    load_bytes rel3 (render_hybrid (d_objs d) H) = Loaded c3 (d_root d) /\
+    forall id, ctx_get c1 id = ctx_get c2 id /\ ctx_get c2 id = ctx_get c3 id.
+Proof. exact load_bytes_representation_independent. Qed.
+
+Theorem C03b_representations_nonvacuous :
+  wf_doc ex_doc /\ wf_layout ex_doc ex_layout /\ wf_xlayout ex_doc ex_xlayout /\ wf_hylayout ex_doc ex_hylayout.
+Proof. exact ex_representations. Qed.
+
 (* ---------- the per-offset facts (each for arbitrary surrounding bytes) ---------- *)
 (* the header scan skips garbage that does not contain the magic; HeaderP cannot fail behind it *)
 Theorem C03b_magic_found : forall g r,
@@ -204,6 +219,8 @@ Print Assumptions C03b_item_ostm.
 Print Assumptions C03b_objstm_nonvacuous.
 Print Assumptions C03b_objstm_example_computed.
 Print Assumptions C03_bytes_hybrid.
+Print Assumptions C03_bytes_representation_independent.
+Print Assumptions C03b_representations_nonvacuous.
 Print Assumptions C03b_hybrid_is_layout.
 Print Assumptions C03b_hybrid_nonvacuous.
 Print Assumptions C03b_hybrid_example_computed.
